@@ -37,11 +37,15 @@ import (
 //	         reference {integration: Ref, column: addr} sits on component maker (with RefTable:
 //	         plus a user-supplied table name)
 type IGSpec struct {
-	Name     string
-	Shape    string
-	Table    string
-	Hdr      bool     // add block_time (forces headers into the plan) for lognh-like shapes
-	AddrFlt  bool     // log shapes: filter log_addr contains TokenAddr (pushed down to eth_getLogs)
+	Name    string
+	Shape   string
+	Table   string
+	Hdr     bool // add block_time (forces headers into the plan) for lognh-like shapes
+	AddrFlt bool // log shapes: filter log_addr contains TokenAddr (pushed down to eth_getLogs)
+	// AddrOther: the address filter names OtherAddr instead of TokenAddr (used with AddrFlt)
+	AddrOther bool `json:",omitempty"`
+	// TxVal (Transfer shapes): also select block field tx_value -> plan: blocks + logs
+	TxVal    bool     `json:",omitempty"`
 	ToFlt    []byte   // tx shape: keep transactions whose tx_to contains this address
 	Ref      string   // dep shapes: referenced integration
 	Ref2     string   // dep shape: second referenced integration (on input "to")
@@ -97,8 +101,16 @@ var OrToArgs = [][]byte{Addr(10), Addr(11), Addr(12)}
 
 // accepts: the declared filters of a Transfer shape (address filter, recipient filter)
 // under the declared aggregation.
+// fltAddr: the contract the address filter admits.
+func (ig *IGSpec) fltAddr() []byte {
+	if ig.AddrOther {
+		return OtherAddr
+	}
+	return TokenAddr
+}
+
 func (ig *IGSpec) accepts(l *Log) bool {
-	addrOK := bytes.Equal(l.Addr, TokenAddr)
+	addrOK := bytes.Equal(l.Addr, ig.fltAddr())
 	toOK := false
 	for _, a := range OrToArgs {
 		if bytes.Equal(l.To, a) {
@@ -124,6 +136,9 @@ type jcol struct {
 }
 
 func (ig *IGSpec) hashes() bool {
+	if ig.TxVal {
+		return true
+	}
 	switch ig.Shape {
 	case "log", "logr", "tx", "txr", "trace":
 		return true
@@ -185,8 +200,11 @@ func (ig *IGSpec) jsonConfig() map[string]any {
 		if ig.Shape == "log" || ig.Shape == "logr" || ig.Hdr {
 			addBD("block_time", "numeric", nil)
 		}
+		if ig.TxVal {
+			addBD("tx_value", "numeric", nil)
+		}
 		if ig.AddrFlt {
-			addBD("log_addr", "bytea", map[string]any{"filter_op": "contains", "filter_arg": []string{hex0x(TokenAddr)}})
+			addBD("log_addr", "bytea", map[string]any{"filter_op": "contains", "filter_arg": []string{hex0x(ig.fltAddr())}})
 		}
 		if ig.Shape == "depbd" {
 			addBD("log_addr", "bytea", ref(ig.Ref))
@@ -430,6 +448,9 @@ func (ig *IGSpec) Project(c *Chain, b *Block, src string) []RowVals {
 				}
 				if ig.Shape == "logr" {
 					r["tx_status"] = u64(1)
+				}
+				if ig.TxVal {
+					r["tx_value"] = u64(tx.Value)
 				}
 				if ig.AddrFlt || ig.Shape == "depbd" || (ig.Shape == "dep" && ig.RefBD != "") {
 					r["log_addr"] = l.Addr
